@@ -205,6 +205,7 @@ type renderer struct {
 	spec  *Spec
 	q     string // qualifier for d's names: "" or "d." / "dd."
 	tName, pName, oName, nName, ptName string // spelled type names
+	tLit string // spelling of T where it heads a composite literal (no parentheses allowed there)
 	ctr   int
 	out   *Rendered
 }
@@ -328,13 +329,16 @@ func Render(s *Spec) *Rendered {
 	}
 	r.tName, r.pName, r.oName, r.nName = r.q+"T", r.q+"P", r.q+"O", r.q+"N"
 	r.ptName = "*" + r.tName
+	r.tLit = r.tName
 	switch s.Spell {
 	case SpLocalAlias:
 		r.tName, r.nName = "AT", "AN"
 		r.ptName = "*AT"
+		r.tLit = "AT"
 	case SpThirdAlias:
 		r.tName, r.nName = "c.AT", "c.AN"
 		r.ptName = "*c.AT"
+		r.tLit = "c.AT"
 	case SpParen:
 		r.tName = "(" + r.q + "T)"
 		r.ptName = "*(" + r.q + "T)"
@@ -426,7 +430,7 @@ func Render(s *Spec) *Rendered {
 
 func (r *renderer) subst(stmt string) string {
 	r.ctr++
-	rep := strings.NewReplacer("{T}", r.tName, "{PT}", r.ptName, "{P}", r.pName, "{O}", r.oName, "{N}", r.nName,
+	rep := strings.NewReplacer("{TL}", r.tLit, "{T}", r.tName, "{PT}", r.ptName, "{P}", r.pName, "{O}", r.oName, "{N}", r.nName,
 		"{GetP}", r.q+"GetP", "{Env}", r.q+"Env", "$v", fmt.Sprintf("v%d", r.ctr))
 	return rep.Replace(stmt)
 }
